@@ -3,7 +3,8 @@
 From Coq Require Import String.
 From Coq Require Import List Ascii ZArith Bool Lia.
 From CGV Require Import Base.PyBase Base.PyVal Base.NxGraph Resolve.Bonding Resolve.GraphOps Resolve.Pipeline
-     Resolve.MapDefs Resolve.Witness Resolve.MapProofs Resolve.CopyProofs Resolve.PipelineFull Resolve.FragidProofs Resolve.EdgeCopy.
+     Resolve.MapDefs Resolve.Witness Resolve.MapProofs Resolve.CopyProofs Resolve.PipelineFull Resolve.FragidProofs Resolve.EdgeCopy Resolve.EdgeCopyGen.
+From CGV Require Hydro.SquashDefs Hydro.SquashProofs Compose.GraphAdj.
 From CGV Require Import Compose.CutModel Compose.ComposeFlat Compose.CutSpecCheck Compose.LevelsExamples.
 Import ListNotations.
 Open Scope Z_scope.
@@ -117,6 +118,54 @@ Proof.
   destruct exC''_hypotheses as (A & B & C). split; [now apply wf_cutb_sound|]. split; [now apply templates_okb_sound|now apply is_baseb_sound].
 Qed.
 
+(** "same internal bonds and bond orders" for ARBITRARY dictionaries and coarse graphs, at the instantiation stage
+    (Resolve/EdgeCopyGen.v).  [wf_tmpl T]: hydro's wf_graph (distinct keys, symmetric closed adjacency, no loop), no duplicate
+    adjacency entry, both directions of an edge carry the same dict; [tmpl_edge T a b] = the template's edge dict between a and
+    b as networkx copies it, or KeyError where the template has no edge *)
+Theorem C02_merge_edges_copy : forall src tgt g corr, merge_graphs src tgt = Ok (g, corr) -> wf_tmpl tgt ->
+  (forall a b, In a (node_keys tgt) -> In b (node_keys tgt) -> edge_attrs g (map_get corr a) (map_get corr b) = tmpl_edge tgt a b) /\
+  (forall x y, In x (node_keys src) -> edge_attrs g x y = edge_attrs src x y).
+Proof. exact merge_edges_copy. Qed.
+Theorem C02_disc_step_edges : forall fd mol fgs mn fv name frag mol2 fgs2,
+  aget (S "fragname") (na mn) = Some fv -> lookup_fragment fd fv = Some (name, frag) -> wf_tmpl frag ->
+  disc_step fd (mol, fgs) mn = Ok (mol2, fgs2) ->
+  exists off fo, merge_offsets mol = Ok (off, fo) /\
+    (forall a b, In a (node_keys frag) -> In b (node_keys frag) ->
+       edge_attrs mol2 (map_get (correspondence off frag) a) (map_get (correspondence off frag) b) = tmpl_edge frag a b) /\
+    (forall x y, In x (node_keys mol) -> edge_attrs mol2 x y = edge_attrs mol x y).
+Proof. exact disc_step_edges. Qed.
+(** the whole loop: for every coarse node with a fragment, at any position, there is an injective map cf from template atoms to
+    fine nodes: the copy of atom t records exactly [coarse key] and [(fragname, t)], and between the copies of a and b there is
+    exactly the template's edge between a and b with its attribute dict - later instantiations leave it alone *)
+Theorem C02_disconnected_edges_copy : forall fd meta mol fgs, tmpl_dict fd -> resolve_disconnected fd meta = Ok (mol, fgs) ->
+  forall pre mn post fv name frag, meta = (pre ++ mn :: post)%list ->
+  aget (S "fragname") (na mn) = Some fv -> lookup_fragment fd fv = Some (name, frag) ->
+  exists cf : Z -> Z,
+    (forall a b, In a (node_keys frag) -> In b (node_keys frag) -> cf a = cf b -> a = b) /\
+    (forall n, In n frag -> node_get mol (cf (nk n)) (S "fragid") = Some (VList [VInt (nk mn)]) /\
+                            node_get mol (cf (nk n)) (S "mapping") = Some (mapping_val name (nk n))) /\
+    (forall a b, In a (node_keys frag) -> In b (node_keys frag) -> edge_attrs mol (cf a) (cf b) = tmpl_edge frag a b).
+Proof. exact disconnected_edges_copy. Qed.
+(** non-vacuity: the witness dictionary satisfies tmpl_dict and the loop returns on {[#V].[#A][#B]} *)
+Example C02_disconnected_edges_copy_nonvacuous :
+  tmpl_dict fd_AB /\ match resolve_disconnected fd_AB base_VAB with Ok (mol, _) => Nat.eqb (length mol) 3 | Err _ => false end = true.
+Proof.
+  split; [|vm_compute; reflexivity].
+  intros name g H. cbn [fd_get fd_AB] in H.
+  destruct (str_eqb name (S "A")).
+  { inversion H; subst; clear H. split.
+    - apply SquashProofs.wf_graphb_sound. vm_compute. reflexivity.
+    - intros n [<-|[<-|[]]]; cbn; repeat constructor; intuition.
+    - intros a b. unfold edge_attrs. cbn [gfind tnode nk nadj map fst snd].
+      repeat match goal with |- context [Z.eqb ?x ?y] => destruct (Z.eqb_spec x y); subst; try congruence; cbn [adj_get gfind nk nadj tnode map fst snd] end; reflexivity. }
+  destruct (str_eqb name (S "B")); [|discriminate].
+  inversion H; subst; clear H. split.
+  - apply SquashProofs.wf_graphb_sound. vm_compute. reflexivity.
+  - intros n [<-|[]]; cbn; constructor.
+  - intros a b. unfold edge_attrs. cbn [gfind tnode nk nadj map fst snd].
+    repeat match goal with |- context [Z.eqb ?x ?y] => destruct (Z.eqb_spec x y); subst; try congruence; cbn [adj_get gfind nk nadj tnode map fst snd] end; reflexivity.
+Qed.
+
 (** non-vacuity: the templates of the witness dictionary are well formed *)
 Example C02_wf_nonvacuous : exists tA tB, fd_get (S "A") fd_AB = Some tA /\ fd_get (S "B") fd_AB = Some tB /\ wf_template tA /\ wf_template tB.
 Proof.
@@ -133,6 +182,9 @@ Print Assumptions C02_fragid_is_coarse_key.
 Print Assumptions C02_step_frag_exact.
 Print Assumptions C02_step_fragid_real.
 Print Assumptions C02_step_edges_copy.
+Print Assumptions C02_merge_edges_copy.
+Print Assumptions C02_disc_step_edges.
+Print Assumptions C02_disconnected_edges_copy.
 Print Assumptions C02_frag_exact.
 Print Assumptions C02_frag_cover.
 Print Assumptions C02_fragid_singleton.
